@@ -142,6 +142,17 @@ def biased_doc(rng, size, samebare=False):
     for t in doc.tables:
         if t.alias == t.name:
             t.alias = None          # this check builds its own alias / bare-name clashes below
+    if rng.random() < 0.3:
+        # the same note text on several owners: every owner must still get a note of its own
+        same = 'the same note text everywhere'
+        for g in doc.groups:
+            g.note = same
+        if len(doc.groups) == 1:
+            doc.groups.append(am.Group(doc.groups[0].name + '_twin', list(doc.groups[0].items), note=same))
+            doc.order.append(('g', len(doc.groups) - 1))
+        for t in doc.tables[:2]:
+            t.note = same
+            t.columns[0].note = same
     # bias: more aliases, reuse an enum name across schemas, self/composite refs come from random_doc
     for t in doc.tables:
         if t.alias is None and rng.random() < 0.4:
